@@ -34,7 +34,7 @@ theorem loop2_cons (top chk : UInt32) (i : Int) (rest : List Int) (g : UInt32) (
   simp only [bech32_polymod_loop2, bind, Except.bind, Go.shiftCount, hi, if_false, hg, feedU]
   split <;> rfl
 
-theorem loop2_eq (top chk : UInt32) :
+theorem polymod_loop2_eq (top chk : UInt32) :
     bech32_polymod_loop2 top [0,1,2,3,4] chk = .ok (.next
       (feedU top 4 705979059 (feedU top 3 1027748829 (feedU top 2 513874426 (feedU top 1 642813549 (feedU top 0 996825010 chk)))))) := by
   rw [loop2_cons top _ 0 _ 996825010 (by decide) rfl, loop2_cons top _ 1 _ 642813549 (by decide) rfl,
@@ -47,12 +47,12 @@ def stepU (chk : UInt32) (v : UInt8) : UInt32 :=
   let c := Go.shlU32 (chk &&& (33554431 : UInt32)) 5 ^^^ v.toUInt32
   feedU top 4 705979059 (feedU top 3 1027748829 (feedU top 2 513874426 (feedU top 1 642813549 (feedU top 0 996825010 c))))
 
-theorem loop1_eq : ∀ (vs : List UInt8) (chk : UInt32),
+theorem polymod_loop1_eq : ∀ (vs : List UInt8) (chk : UInt32),
     bech32_polymod_loop1 vs chk = .ok (.next (vs.foldl stepU chk))
   | [], chk => rfl
   | v :: vs, chk => by
-    simp only [bech32_polymod_loop1, bind, Except.bind, rangeUp05, loop2_eq, List.foldl_cons]
-    exact loop1_eq vs _
+    simp only [bech32_polymod_loop1, bind, Except.bind, rangeUp05, polymod_loop2_eq, List.foldl_cons]
+    exact polymod_loop1_eq vs _
 
 theorem shrU32_toNat (x : UInt32) (n : Nat) : (Go.shrU32 x n).toNat = x.toNat >>> n := by
   simp only [Go.shrU32, UInt32.toNat_ofNat']
@@ -89,7 +89,7 @@ theorem foldl_stepU_toNat : ∀ (vs : List UInt8) (chk : UInt32),
     rw [List.foldl_cons, List.foldl_cons, foldl_stepU_toNat vs, stepU_toNat]
 
 theorem polymod_tie (vs : Bytes) : bech32_polymod vs = .ok (UInt32.ofNat (Bech32.polymod vs)) := by
-  simp only [bech32_polymod, bind, Except.bind, pure, Except.pure, loop1_eq]
+  simp only [bech32_polymod, bind, Except.bind, pure, Except.pure, polymod_loop1_eq]
   congr 1
   apply UInt32.toNat_inj.mp
   rw [foldl_stepU_toNat, UInt32.toNat_ofNat']
